@@ -236,3 +236,15 @@ func VerifC03_ContinuousPool() { c02Continuous(2, 3) }
 //verif:replace (*$M/internal/workers.ActiveScenario).Run c02RunFn
 //verif:replace (*$M/internal/workers.PoolManager).NextIteration c02NextIteration
 func VerifC04_ContinuousPool() { c02Continuous(2, 0) }
+
+// VerifC05_PoolShutdown: the trigger-pool scenario under C05: after WaitForCompletion fired, every goroutine of the
+// pool (workers AND the goroutine that drains and records dropped work) has finished - nothing is recorded and no
+// iteration starts afterwards (the conservation equalities are read after completion and hold exactly).
+//
+//verif:conc
+//verif:unroll 3
+//verif:timeout 300
+//verif:replace (*$M/internal/workers.ActiveScenario).Run c02RunFn
+//verif:replace (*$M/internal/workers.ActiveScenario).RecordDroppedIteration c02DroppedFn
+//verif:replace (*$M/internal/workers.PoolManager).NextIteration c02NextIteration
+func VerifC05_PoolShutdown() { c02Scenario(c02Config{workers: 1, ticks: 2, nmax: 2, maxLimit: 2}) }
